@@ -333,4 +333,72 @@ def NumVal.zero : NumVal := .int 0
 
 end Constraint
 
+-- ---------------------------------------------------------------------------------------- error messages (errors.go of every package)
+/- The `Error()` text of the parse-error types (`date/sem/uu/size.ParseError`, `roman.NumberFormatError`) and the
+"input too long" cause the parsers wrap. `%q` (strconv.Quote) is modelled for ASCII bytes; inputs with a byte ≥ 128 are
+outside the model (`quoteModelled`). -/
+namespace ErrMsg
+
+inductive Pkg where | date | sem | roman | uu | size
+  deriving DecidableEq, Repr
+
+def Pkg.name : Pkg → Bytes
+  | .date => [100, 97, 116, 101] | .sem => [115, 101, 109] | .roman => [114, 111, 109, 97, 110] | .uu => [117, 117] | .size => [115, 105, 122, 101]
+
+/-- the text used when `Err` is nil -/
+def Pkg.fallback : Pkg → Bytes
+  | .date => [105, 110, 118, 97, 108, 105, 100, 32, 100, 97, 116, 101] | .sem => [105, 110, 118, 97, 108, 105, 100, 32, 118, 101, 114, 115, 105, 111, 110] | .roman => [105, 110, 118, 97, 108, 105, 100, 32, 114, 111, 109, 97, 110, 32, 110, 117, 109, 98, 101, 114]
+  | .uu => [105, 110, 118, 97, 108, 105, 100, 32, 102, 111, 114, 109, 97, 116] | .size => [117, 110, 97, 98, 108, 101, 32, 116, 111, 32, 112, 97, 114, 115, 101]
+
+/-- size says `parsing "…"`, the others quote the input directly -/
+def Pkg.lead : Pkg → Bytes
+  | .size => [112, 97, 114, 115, 105, 110, 103, 32] | _ => []
+
+def hex2 (c : Nat) : Bytes := [hexDigit (c / 16), hexDigit (c % 16)]
+
+/-- strconv.Quote on one ASCII byte -/
+def quoteByte (c : Nat) : Bytes :=
+  if c = 34 then [92, 34] else if c = 92 then [92, 92]
+  else if c = 7 then [92, 97] else if c = 8 then [92, 98] else if c = 12 then [92, 102]
+  else if c = 10 then [92, 110] else if c = 13 then [92, 114] else if c = 9 then [92, 116] else if c = 11 then [92, 118]
+  else if c < 32 ∨ c = 127 then 92 :: 120 :: hex2 c
+  else [c]
+
+def quoteBody : Bytes → Bytes
+  | [] => []
+  | c :: s => quoteByte c ++ quoteBody s
+
+def quote (s : Bytes) : Bytes := 34 :: (quoteBody s ++ [34])
+
+def quoteModelled (s : Bytes) : Bool := s.all (fun c => decide (c < 128))
+
+def sep : Bytes := [58, 32]
+
+/-- `(*ParseError).Error()`: `err = none` is a nil `Err`, `some t` an `Err` whose own text is `t` -/
+def message (p : Pkg) (fn input : Bytes) (err : Option Bytes) : Bytes :=
+  let e := match err with | some t => t | none => p.fallback
+  if input.length = 0 then p.name ++ 46 :: fn ++ sep ++ e
+  else p.name ++ 46 :: fn ++ sep ++ p.lead ++ quote input ++ sep ++ e
+
+/-- `fmt.Errorf("%w: %d > %d", ErrInputTooLong, l, MaxInputLength)` -/
+def tooLongText (l max : Nat) : Bytes := [105, 110, 112, 117, 116, 32, 116, 111, 111, 32, 108, 111, 110, 103, 58, 32] ++ dec l ++ [32, 62, 32] ++ dec max
+
+/-- the error of a parser whose input exceeds the limit: built from the zero value of the input type and the two lengths -/
+def tooLongMessage (p : Pkg) (fn input : Bytes) (max : Nat) : Bytes :=
+  message p fn [] (some (tooLongText input.length max))
+
+/-- the receiver type whose `UnmarshalText` wraps the parser's error -/
+def Pkg.typeName : Pkg → Bytes
+  | .date => [68, 97, 116, 101] | .sem => [86, 101, 114] | .roman => [78, 117, 109, 98, 101, 114] | .uu => [73, 68] | .size => [83, 105, 122, 101]
+
+/-- `fmt.Errorf("<pkg>.<Type>.UnmarshalText: %w", err)` around the parser's error text -/
+def unmarshalTextWrap (p : Pkg) (inner : Bytes) : Bytes :=
+  p.name ++ 46 :: p.typeName ++ [46, 85, 110, 109, 97, 114, 115, 104, 97, 108, 84, 101, 120, 116, 58, 32] ++ inner
+
+/-- what `UnmarshalText` returns for an input longer than the limit (`fn` = the parser's function name) -/
+def unmarshalTextTooLong (p : Pkg) (fn input : Bytes) (max : Nat) : Bytes :=
+  unmarshalTextWrap p (tooLongMessage p fn input max)
+
+end ErrMsg
+
 end U
